@@ -564,7 +564,7 @@ def prepare (cfg : Cfg4) (allFars : List Far) (qers : List Qer) (op : Op) (st : 
   | none => (st, none)
   | some far =>
   let peer := mapGet st.peers (tpOf cfg far)
-  if peer.isNone ∧ far.tunnelTEID ≠ 0 then (st, none) else
+  if peer.isNone ∧ far.dstIntf = 0 ∧ far.tunnelTEID ≠ 0 then (st, none) else     -- (only a FAR towards the access network refers to a tunnel peer)
   let peerID := (peer.map (·.id)).getD 0
   let sessMeter : Meter :=
     if p.qerIDs.length = 2 then (mapGet st.meters (p.qerIDs.getD 1 0, p.fseID)).getD zeroMeter else { kind := 2, ul := 0, dl := 0 }
